@@ -368,7 +368,7 @@ theorem openCall_view (g : GcmAsm) (hl : AsmLens g) (ht : gcmMinimumTagSize ≤ 
 /-! ### Block.Encrypt / Block.Decrypt -/
 
 /-- the closed form of a Block method: the 16 bytes `f(src[:16])` stored at `dst[0:16]` -/
-theorem blockCrypt_ok (f : Bytes → Bytes) (hf : ∀ bs, (f bs).length = blockSize)
+theorem blockCrypt_ok (f : Bytes → Bytes) (hf : ∀ bs, bs.length = blockSize → (f bs).length = blockSize)
     (h : Heap) (dst src : Slice) (hwd : WF h dst) (hws : WF h src)
     (hd : blockSize ≤ dst.len) (hs : blockSize ≤ src.len) :
     ∃ a, dst.arr = some a ∧ a < h.length ∧ dst.off + blockSize ≤ (arrayOf h a).length ∧
@@ -382,13 +382,15 @@ theorem blockCrypt_ok (f : Bytes → Bytes) (hf : ∀ bs, (f bs).length = blockS
     obtain ⟨arr, o, len, cap⟩ := src
     exact ⟨by have := hws.1; simp at this hs ⊢; omega, hws.2⟩
   have hrd := readPtr_slice h { src with len := blockSize } b hsb hws16
+  have hl16 : (Mem.read h { src with len := blockSize }).length = blockSize :=
+    length_read h _ hws16
   have hne : (f (Mem.read h { src with len := blockSize })).isEmpty = false := by
     cases hr : f (Mem.read h { src with len := blockSize }) with
-    | nil => have := hf (Mem.read h { src with len := blockSize }); rw [hr] at this; simp [hb] at this
+    | nil => have := hf (Mem.read h { src with len := blockSize }) hl16; rw [hr] at this; simp [hb] at this
     | cons => rfl
   have hin : a < h.length ∧
       dst.off + (f (Mem.read h { src with len := blockSize })).length ≤ (arrayOf h a).length := by
-    rw [hf]; have := hwd.1; exact ⟨ha, by omega⟩
+    rw [hf _ hl16]; have := hwd.1; exact ⟨ha, by omega⟩
   have hw : writePtr h (some (a, dst.off)) (f (Mem.read h { src with len := blockSize }))
       = .ok (poke h a dst.off (f (Mem.read h { src with len := blockSize }))) := by
     simp only [writePtr, hne, writeAt, hin, and_self, if_true, Bool.false_eq_true, if_false]
@@ -422,7 +424,7 @@ theorem read_poke_block (h : Heap) (a : Nat) (dst : Slice) (bs : Bytes) (hda : d
   cases hda' : dst.arr <;> simp [Mem.read]
 
 /-- the contract of a Block method call on slices of at least one block -/
-theorem blockCall_contract (f : Bytes → Bytes) (hf : ∀ bs, (f bs).length = blockSize)
+theorem blockCall_contract (f : Bytes → Bytes) (hf : ∀ bs, bs.length = blockSize → (f bs).length = blockSize)
     (h0 : Heap) (dst src : Slice) (hwd : WF h0 dst) (hws : WF h0 src)
     (hd : blockSize ≤ dst.len) (hs : blockSize ≤ src.len) :
     Contract (blockCall f dst src) h0 where
@@ -448,8 +450,11 @@ theorem blockCall_contract (f : Bytes → Bytes) (hf : ∀ bs, (f bs).length = b
     obtain ⟨a', hda', ha', hcap', e'⟩ := blockCrypt_ok f hf h0 dst src hwd hws hd hs
     have haa : a' = a := by rw [hda] at hda'; exact (Option.some.inj hda').symm
     subst haa
-    have hlen1 := hf (Mem.read h1 { src with len := blockSize })
-    have hlen0 := hf (Mem.read h0 { src with len := blockSize })
+    have hws16 : WF h0 { src with len := blockSize } := by
+      obtain ⟨arr, o, len, cap⟩ := src
+      exact ⟨by have := hws.1; simp at this hs ⊢; omega, hws.2⟩
+    have hlen1 := hf (Mem.read h1 { src with len := blockSize }) (length_read h1 _ (hc.wf _ hws16))
+    have hlen0 := hf (Mem.read h0 { src with len := blockSize }) (length_read h0 _ hws16)
     have hb1 : dst.off + (f (Mem.read h1 { src with len := blockSize })).length
         ≤ (arrayOf h1 a').length := by rw [hlen1]; exact hcap
     have hb0 : dst.off + (f (Mem.read h0 { src with len := blockSize })).length
@@ -485,7 +490,7 @@ theorem blockCall_contract (f : Bytes → Bytes) (hf : ∀ bs, (f bs).length = b
         exact hdd
 
 /-- what a Block method call leaves in `dst[:16]`, alone: `f(src[:16])` -/
-theorem blockCall_view (f : Bytes → Bytes) (hf : ∀ bs, (f bs).length = blockSize)
+theorem blockCall_view (f : Bytes → Bytes) (hf : ∀ bs, bs.length = blockSize → (f bs).length = blockSize)
     (h0 : Heap) (dst src : Slice) (hwd : WF h0 dst) (hws : WF h0 src)
     (hd : blockSize ≤ dst.len) (hs : blockSize ≤ src.len) :
     view ((blockCall f dst src).run h0) =
@@ -493,7 +498,10 @@ theorem blockCall_view (f : Bytes → Bytes) (hf : ∀ bs, (f bs).length = block
   obtain ⟨a, hda, ha, hcap, e⟩ := blockCrypt_ok f hf h0 dst src hwd hws hd hs
   rw [blockCall_run f dst src h0 _ e]
   show Outcome.ok (some (Mem.read _ { dst with len := blockSize })) = _
-  have hlen := hf (Mem.read h0 { src with len := blockSize })
+  have hws16 : WF h0 { src with len := blockSize } := by
+    obtain ⟨arr, o, len, cap⟩ := src
+    exact ⟨by have := hws.1; simp at this hs ⊢; omega, hws.2⟩
+  have hlen := hf (Mem.read h0 { src with len := blockSize }) (length_read h0 _ hws16)
   have r := read_poke_block h0 a dst _ hda ha (by rw [hlen]; exact hcap)
   rw [hlen] at r
   rw [r]
@@ -503,13 +511,17 @@ theorem blockCall_view (f : Bytes → Bytes) (hf : ∀ bs, (f bs).length = block
 /-- the calls C17 speaks about, on ONE AEAD value `g` and ONE Block value (`enc`/`dec`: what
     cryptoBlockAsm computes with its encryption / decryption round keys), with arguments that are
     well-formed slices of the heap `h0` and pass the methods' own checks (a call that fails them
-    panics whatever the other goroutines do) -/
+    panics whatever the other goroutines do).  `Admissible` (C10: a call's own nonce and additional
+    data do not meet its output region, its text does not or overlaps it exactly, e.g. the
+    in-place idiom) is not needed by the proofs; it is there because outside it the glue model is
+    not claimed to be the code's behaviour (Model/GCMGlue.lean, "aliasing") -/
 inductive CipherCall (g : GcmAsm) (enc dec : Bytes → Bytes) (h0 : Heap) : HeapCall → Prop
   | ofSeal (dst nonce pt aad : Slice) (hwf : WF h0 dst) (hwn : WF h0 nonce) (hwp : WF h0 pt)
-      (hwa : WF h0 aad) (hn : nonce.len = g.nonceSize) (hp : pt.len ≤ maxPlain) :
+      (hwa : WF h0 aad) (hn : nonce.len = g.nonceSize) (hp : pt.len ≤ maxPlain)
+      (hadm : Admissible dst nonce pt aad) :
       CipherCall g enc dec h0 (sealCall g dst nonce pt aad)
   | ofOpen (dst nonce ct aad : Slice) (hwf : WF h0 dst) (hwn : WF h0 nonce) (hwc : WF h0 ct)
-      (hwa : WF h0 aad) (hn : nonce.len = g.nonceSize) :
+      (hwa : WF h0 aad) (hn : nonce.len = g.nonceSize) (hadm : Admissible dst nonce ct aad) :
       CipherCall g enc dec h0 (openCall g dst nonce ct aad)
   | ofEncrypt (dst src : Slice) (hwd : WF h0 dst) (hws : WF h0 src)
       (hd : blockSize ≤ dst.len) (hs : blockSize ≤ src.len) :
@@ -519,14 +531,14 @@ inductive CipherCall (g : GcmAsm) (enc dec : Bytes → Bytes) (h0 : Heap) : Heap
       CipherCall g enc dec h0 (blockCall dec dst src)
 
 theorem cipherCall_contract (g : GcmAsm) (hl : AsmLens g) (ht : gcmMinimumTagSize ≤ g.tagSize)
-    (enc dec : Bytes → Bytes) (he : ∀ bs, (enc bs).length = blockSize)
-    (hd : ∀ bs, (dec bs).length = blockSize) (h0 : Heap) (c : HeapCall)
+    (enc dec : Bytes → Bytes) (he : ∀ bs, bs.length = blockSize → (enc bs).length = blockSize)
+    (hd : ∀ bs, bs.length = blockSize → (dec bs).length = blockSize) (h0 : Heap) (c : HeapCall)
     (hc : CipherCall g enc dec h0 c) : Contract c h0 := by
   have ht0 : 0 < g.tagSize := Nat.lt_of_lt_of_le (by decide) ht
   cases hc with
-  | ofSeal dst nonce pt aad hwf hwn hwp hwa hn hp =>
+  | ofSeal dst nonce pt aad hwf hwn hwp hwa hn hp _ =>
     exact sealCall_contract g hl ht0 h0 dst nonce pt aad hwf hwn hwp hwa hn hp
-  | ofOpen dst nonce ct aad hwf hwn hwc hwa hn =>
+  | ofOpen dst nonce ct aad hwf hwn hwc hwa hn _ =>
     exact openCall_contract g hl ht h0 dst nonce ct aad hwf hwn hwc hwa hn
   | ofEncrypt dst src hwd hws hdl hsl => exact blockCall_contract enc he h0 dst src hwd hws hdl hsl
   | ofDecrypt dst src hwd hws hdl hsl => exact blockCall_contract dec hd h0 dst src hwd hws hdl hsl
